@@ -567,6 +567,47 @@ def explore(fn, args, assumptions, models, kwargs=None, max_loop=64):
     return leaves, it
 
 
+SECOND = {'agree': 0, 'disagree': 0, 'inconclusive': 0}
+
+
+def second_solver(solver, verdict):
+    """Thorough tier: re-decide the same query, dumped as SMT-LIB2, with the system z3 4.8.12 binary (a different build of
+    the solver).  Returns False on a definite disagreement or an `(error` line; unknown/timeouts of the second solver are counted, not fatal."""
+    import os
+    import subprocess
+    import tempfile
+    if os.environ.get('KT_SECOND_SOLVER') != '1' or not os.path.exists('/usr/bin/z3'):
+        return True
+    work = os.path.join(os.path.dirname(os.path.dirname(os.path.abspath(__file__))), '.work')
+    os.makedirs(work, exist_ok=True)
+    fd, path = tempfile.mkstemp(suffix='.smt2', dir=work)
+    try:
+        with os.fdopen(fd, 'w') as f:
+            f.write(solver.to_smt2())
+        try:
+            out = subprocess.run(['/usr/bin/z3', '-T:60', path], capture_output=True, text=True, timeout=90).stdout
+        except subprocess.TimeoutExpired:
+            SECOND['inconclusive'] += 1
+            return True
+        first = out.strip().splitlines()[0] if out.strip() else ''
+        if '(error' in out:
+            SECOND['disagree'] += 1
+            return False
+        if first in ('sat', 'unsat'):
+            if first == verdict:
+                SECOND['agree'] += 1
+                return True
+            SECOND['disagree'] += 1
+            return False
+        SECOND['inconclusive'] += 1
+        return True
+    finally:
+        try:
+            os.remove(path)
+        except OSError:
+            pass
+
+
 def decide(leaves, bad, timeout_ms=60000):
     """bad(leaf) -> z3 Bool that is true when the property is violated on that leaf.  One query per leaf (path condition and
     violated); all unsat = holds for every input within the bounds.  Returns ('unsat'|'sat'|'unknown', model, solver)."""
@@ -586,6 +627,8 @@ def decide(leaves, bad, timeout_ms=60000):
             return 'sat', s.model(), s
         if r != z3.unsat:
             unknown = True
+        elif not second_solver(s, 'unsat'):
+            unknown = True          # the two solvers disagree: inconclusive, never success
     if last is None:
         last = z3.Solver()
     return ('unknown' if unknown else 'unsat'), None, last
